@@ -173,6 +173,12 @@ def run_probe(probe):
         ok = False
     if "expect_rc" in probe and obs.get("rc") != probe["expect_rc"]:
         ok = False
+    if "expect_rc_nonzero" in probe and (obs.get("rc") == 0) == bool(probe["expect_rc_nonzero"]):
+        ok = False
+    if "expect_stderr_empty" in probe and (obs.get("stderr", "") == "") != bool(probe["expect_stderr_empty"]):
+        ok = False
+    if "expect_stderr_contains" in probe and probe["expect_stderr_contains"] not in obs.get("stderr", ""):
+        ok = False
     if probe.get("expect_no_panic", True) and obs.get("rc") == 101:
         ok = False
     return ok, obs
